@@ -24,10 +24,10 @@ Record Inv (s : state) : Prop := {
   i_active : forall t, t < length (tasks s) -> t_st (task_of s t) = TActive ->
              exists x, In x (acts s) /\ a_task x = t /\ ostart_of s t < a_start x;
   i_queued : forall t, t < length (tasks s) -> t_st (task_of s t) = TQueued -> In t (cq s ++ steal s);
-  i_fut : forall gj, gj < length (joins s) -> j_kind (join_of s gj) = JFut ->
+  i_fut : forall gj, gj < length (joins s) -> is_set (j_kind (join_of s gj)) = false ->
           j_ftask (join_of s gj) < length (tasks s) /\ t_join (task_of s (j_ftask (join_of s gj))) = gj;
   i_waitfut : forall x gj, In x (acts s) -> a_mode x = MWaitFut gj ->
-              gj < length (joins s) /\ j_kind (join_of s gj) = JFut /\ t_st (task_of s (j_ftask (join_of s gj))) <> TQueued;
+              gj < length (joins s) /\ is_set (j_kind (join_of s gj)) = false /\ t_st (task_of s (j_ftask (join_of s gj))) <> TQueued;
   i_parked : forall g, In g (agents s) -> parked g = true -> stack g = [];
   i_steal : steal s <> [] -> exists w, In w (agents s) /\ worker w = true /\ parked w = false /\
             forall t x, In t (steal s) -> In x (stack w) -> ostart_of s t < a_start x;
@@ -107,7 +107,7 @@ Definition mode_ok (s : state) (x : act) (m : mode) : Prop :=
   match m with
   | MRun => True
   | MWaitSet gj => gj < length (joins s) /\ j_ostart (join_of s gj) = a_start x
-  | MWaitFut gj => (gj < length (joins s) /\ j_ostart (join_of s gj) = a_start x) /\ gj < length (joins s) /\ j_kind (join_of s gj) = JFut /\
+  | MWaitFut gj => (gj < length (joins s) /\ j_ostart (join_of s gj) = a_start x) /\ gj < length (joins s) /\ is_set (j_kind (join_of s gj)) = false /\
                    t_st (task_of s (j_ftask (join_of s gj))) <> TQueued
   end.
 
